@@ -96,6 +96,8 @@ impl Drop for MmapGuard {
         // SAFETY: `segment` was previously returned from `mmap`, and therefore
         // when this destructor runs there are no more live references into
         // it.
+        #[cfg(clock_bound_verif)]
+        crate::verif::unregister_mapping(self.segment as usize, self.segsize);
         unsafe {
             let ret = libc::munmap(self.segment, self.segsize);
             assert!(ret == 0);
